@@ -554,7 +554,8 @@ class Normaliser:
                     out.append(l)
             return ' '.join(out)
 
-        for kind, arg, txt in splices:
+        # invariants contain braces: insert them last so that loop bodies are still found by their first `{`
+        for kind, arg, txt in sorted(splices, key=lambda x: x[0] == 'loop'):
             sc = Scan(body)
             t = flat(txt)
             if kind in ('loop', 'loop-start', 'loop-end'):
@@ -761,6 +762,10 @@ def expand(template_path, repo):
             indent = re.match(r'\s*', ln).group(0)
             l_sig = cur_line()
             pieces = []
+            for o in opts:
+                if o.startswith('attr='):
+                    # verifier attribute on the function (e.g. verifier::loop_isolation(false), verifier::rlimit(50))
+                    pieces.append(indent + '#[' + o[5:] + ']')
             if external:
                 pieces.append(indent + '#[verifier::external_body]')
             pieces.append(indent + sig)
